@@ -188,20 +188,6 @@ fn trap_kind(s: &str) -> String {
     s.chars().take(60).collect()
 }
 
-fn addrs_of(run: &Value) -> Vec<usize> {
-    let mut v: Vec<usize> = vec![];
-    for key in ["exp", "expOrig"] {
-        if let Some(ws) = run[key]["words"].as_array() {
-            for w in ws {
-                let a = w[0].as_u64().unwrap() as usize;
-                if !v.contains(&a) && key == "exp" {
-                    v.push(a);
-                }
-            }
-        }
-    }
-    v
-}
 fn addrs_of_key(run: &Value, key: &str) -> Vec<usize> {
     run[key]["words"].as_array().map(|ws| ws.iter().map(|w| w[0].as_u64().unwrap() as usize).collect()).unwrap_or_default()
 }
@@ -345,7 +331,6 @@ fn replay(args: &Args) {
             let arg = run["arg"].as_i64().unwrap(); // i32 value, sign-extended into the i64 argument
             let a_exp = addrs_of_key(run, "exp");
             let a_orig = addrs_of_key(run, "expOrig");
-            let _ = addrs_of(run);
             let orig = run_original(&code, arg, &a_orig);
             let (instr, cost, gas_calls) = run_instrumented(&module, arg, None, &a_exp);
             let (at_cost, cost2, _) = run_instrumented(&module, arg, Some(cost), &a_exp);
